@@ -44,11 +44,11 @@ var xUnits = []xUnit{
 	{Name: "tr_WriteUint32", Dir: "tars/protocol/codec", Func: "Buffer.WriteUint32", Writer: codecWriter},
 	{Name: "tr_WriteString", Dir: "tars/protocol/codec", Func: "Buffer.WriteString", Writer: codecWriter},
 	// selector.BuildStaticWeightList up to the scaling range: static-weight check, min / max weight, guard, clamp
-	{Name: "tr_BSWL_range", Dir: "tars/selector", Func: "BuildStaticWeightList", From: "var maxRange, totalWeight int", To: "if minWeight > 0 {",
+	{Name: "tr_BSWL_range", Dir: "tars/selector", Func: "BuildStaticWeightList", From: "^", To: "if minWeight > 0 {",
 		Outs: []string{"maxRange", "totalWeight", "minWeight", "maxWeight"}},
 	// the registry <-> endpoint conversions (Tars2endpoint without its cache key)
 	{Name: "tr_Endpoint2tars", Dir: "tars/util/endpoint", Func: "Endpoint2tars"},
-	{Name: "tr_Tars2endpoint_build", Dir: "tars/util/endpoint", Func: "Tars2endpoint", From: `proto := "tcp"`, To: "e := Endpoint{",
+	{Name: "tr_Tars2endpoint_build", Dir: "tars/util/endpoint", Func: "Tars2endpoint", From: "^", To: "e := Endpoint{",
 		Outs: []string{"e"}, After: []string{"e.Key = e.String()", "return e"}},
 	// AdapterProxy.checkActive: the failover thresholds; the clock, the outcome of ReConnect and the float32 failure
 	// ratio comparison are oracles
@@ -293,6 +293,9 @@ func xlateUnit(root string, u *xUnit, ld *xLoader, records map[string]*types.Nam
 		}
 	} else { // a run of top-level statements; its free variables are the parameters
 		first, last := -1, -1
+		if u.From == "^" { // from the first statement of the function
+			first = 0
+		}
 		for i, s := range body {
 			line := strings.SplitN(x.src(s), "\n", 2)[0]
 			if line == u.From {
